@@ -8,7 +8,7 @@ na = json.load(open(f"{V}/na.json"))
 m = {"version": 1,
      "setup_cmd": "cd /verif/tools/vx && CARGO_NET_OFFLINE=true cargo build --offline --release && mkdir -p /verif/tools/derivegen/src/gen && cp /repo/ractor_cluster_derive/src/codegen.rs /repo/ractor_cluster_derive/src/ir.rs /repo/ractor_cluster_derive/src/parse.rs /verif/tools/derivegen/src/gen/ && cd /verif/tools/derivegen && CARGO_NET_OFFLINE=true cargo build --offline --release",
      "hooks": {"guard": "cfg(kani)",
-               "enable": "no source change is committed to /repo: contracts are attached to mechanically extracted copies of the real functions (Verus, tools/vx, re-extracted from /repo's working tree on every run) or added under cfg(kani) to a scratch copy of /repo's working tree at check time (Kani); cfg(kani) is only ever set by cargo kani",
+               "enable": "no HOOK is committed to /repo (the only commit there is the unguarded repair `fix: a remote actor's cell no longer unregisters its name on exit`, 5bf1c86, see known_findings.txt): contracts are attached to mechanically extracted copies of the real functions (Verus, tools/vx, re-extracted from /repo's working tree on every run) or added under cfg(kani) to a scratch copy of /repo's working tree at check time (Kani); cfg(kani) is only ever set by cargo kani",
                "baseline_off_cmd": "cd /repo && cargo test --workspace --no-fail-fast --offline",
                "source_commits": [], "add_only": True},
      "engines": [{"name": "vx+verus+kani", "path": "/verif/check", "serves_properties": sorted(claimed.keys()),
